@@ -229,10 +229,11 @@ func vc_mysql56BinlogEvent_StripChecksum_ensures_view(ev mysql56BinlogEvent, f B
 	switch f.ChecksumAlgorithm {
 	case 0, 255:
 		o, ok := out.(mysql56BinlogEvent)
-		return err == nil && ok && sum == nil && vspec.Window(o.binlogEvent, b, 0, len(b))
+		return err == nil && ok && sum == nil && vspec.Window(o.binlogEvent, b, 0, len(b)) && cap(o.binlogEvent) == cap(b)
 	case 1:
 		o, ok := out.(mysql56BinlogEvent)
-		return err == nil && ok && vspec.Window(o.binlogEvent, b, 0, len(b)-4) && vspec.Window(sum, b, len(b)-4, len(b))
+		return err == nil && ok && vspec.Window(o.binlogEvent, b, 0, len(b)-4) && cap(o.binlogEvent) == cap(b) &&
+			vspec.Window(sum, b, len(b)-4, len(b))
 	}
 	return err != nil
 }
